@@ -71,18 +71,49 @@ void H_bmArrayOps(void) {
     CANARY();
 }
 
-/* ---- RUNS container (as a large AddRange on an empty set leaves it): clear, membership, cardinality ---- */
+/* ---- RUNS container with one run (what a large AddRange on an empty set leaves): membership, clear ---- */
 void H_bmRunsClear(void) {
-    varintBitmap *vb = varintBitmapCreate(); __CPROVER_assume(vb != NULL);
-    uint16_t lo, hi, g; __CPROVER_assume(hi > lo && (uint32_t)hi - lo > VARINT_BITMAP_ARRAY_MAX);
-    varintBitmapAddRange(vb, lo, hi);
-    __CPROVER_assume(vb->type == VARINT_BITMAP_RUNS);            /* the run container's allocation succeeded */
-    __CPROVER_assert(varintBitmapContains(vb, g) == (g >= lo && g < hi) && varintBitmapCardinality(vb) == (uint32_t)hi - lo, "bitmap runs: one run holds exactly the range");
+    varintBitmap *vb = malloc(sizeof(*vb)); __CPROVER_assume(vb != NULL);
+    uint16_t start, length, g; __CPROVER_assume(length >= 1 && (uint32_t)start + length <= 65536);
+    vb->type = VARINT_BITMAP_RUNS; vb->cardinality = length;
+    vb->container.runs.numRuns = 1; vb->container.runs.capacity = 1;
+    vb->container.runs.runs = malloc(2 * sizeof(uint16_t)); __CPROVER_assume(vb->container.runs.runs != NULL);
+    vb->container.runs.runs[0] = start; vb->container.runs.runs[1] = length;
+    __CPROVER_assert(varintBitmapContains(vb, g) == (g >= start && (uint32_t)g < (uint32_t)start + length), "bitmap runs: a run holds exactly its range");
+    __CPROVER_assert(varintBitmapCardinality(vb) == length && !varintBitmapIsEmpty(vb), "bitmap runs: cardinality");
     varintBitmapClear(vb);
-    __CPROVER_assert(varintBitmapIsEmpty(vb) && varintBitmapCardinality(vb) == 0 && !varintBitmapContains(vb, g), "bitmap runs: clear empties the set for every answer, not only the cardinality");
-    uint16_t outv[1]; outv[0] = 0x5a5a;
-    __CPROVER_assert(varintBitmapToArray(vb, outv) == 0 && outv[0] == 0x5a5a, "bitmap runs: nothing is exported after clear");
+    __CPROVER_assert(varintBitmapIsEmpty(vb) && varintBitmapCardinality(vb) == 0, "bitmap runs: clear empties the set");
+    __CPROVER_assert(!varintBitmapContains(vb, g), "bitmap runs: after clear no element is a member any more");
+    varintBitmapIterator it = varintBitmapCreateIterator(vb);
+    __CPROVER_assert(!varintBitmapIteratorNext(&it), "bitmap runs: after clear the iterator yields nothing");
     varintBitmapFree(vb);
+    CANARY();
+}
+
+/* ---- arrayEnsureCapacity_: growth either succeeds or leaves the container exactly as it was (C18) ---- */
+void H_bmEnsureCapacity(void) {
+    varintBitmap *vb = mk_array();
+    uint32_t needed; __CPROVER_assume(needed <= 64);
+    uint32_t cap0 = vb->container.array.capacity, card0 = vb->cardinality; uint16_t first0 = vb->container.array.values[0];
+    bool ok = arrayEnsureCapacity_(vb, needed);
+    if (ok) __CPROVER_assert(vb->container.array.capacity >= needed && vb->container.array.capacity >= cap0 && vb->container.array.values != NULL, "bitmap: successful growth provides the capacity");
+    else __CPROVER_assert(vb->container.array.capacity == cap0 && vb->container.array.values != NULL, "bitmap OOM: failed growth leaves capacity and storage as they were");
+    __CPROVER_assert(vb->cardinality == card0 && (card0 == 0 || vb->container.array.values[0] == first0), "bitmap: growth keeps the members");
+    __CPROVER_assert(__CPROVER_w_ok(vb->container.array.values, (size_t)vb->container.array.capacity * sizeof(uint16_t)), "bitmap: the recorded capacity is really allocated");
+    varintBitmapFree(vb);
+    CANARY();
+}
+
+/* ---- Decode accepts every dense-container stream, including the full set ---- */
+void H_bmDecodeDense(void) {
+    uint8_t *buf = malloc(5 + VARINT_BITMAP_BITMAP_SIZE); __CPROVER_assume(buf != NULL);
+    uint32_t card; __CPROVER_assume(card <= 65536); uint16_t g;
+    buf[0] = VARINT_BITMAP_BITMAP; memcpy(buf + 1, &card, 4);
+    bool member = (buf[5 + g / 8] >> (g % 8)) & 1;
+    varintBitmap *d = varintBitmapDecode(buf, 5 + VARINT_BITMAP_BITMAP_SIZE);
+    __CPROVER_assert(d != NULL, "bitmap: a well-formed dense stream of any cardinality up to 65536 is accepted");
+    __CPROVER_assert(d->type == VARINT_BITMAP_BITMAP && varintBitmapCardinality(d) == card && varintBitmapContains(d, g) == member, "bitmap: dense stream decodes to the same set");
+    varintBitmapFree(d); free(buf);
     CANARY();
 }
 
